@@ -396,7 +396,18 @@ func init() {
 	})
 	add("(*github.com/yuin/gopher-lua.LState).Close", icZero)
 	add("github.com/evanphx/json-patch.CreateMergePatch", func(ex *Exec, fr *frame, fn *ssa.Function, args []Value, pos tokenPos) Value {
-		// a JSON diff over two documents: opaque body (harnesses check the write target, not the body)
+		// RFC 7386 difference of two documents.  When both are JSON tokens of the value model the patch is computed on
+		// their trees (changed / added members with the new value, removed members as null, recursively for
+		// objects); otherwise the body stays opaque (harnesses then only look at the write target)
+		if a, ok := args[0].(SliceV); ok && a.str != nil {
+			if b, ok := args[1].(SliceV); ok && b.str != nil {
+				na, okA := ex.jsonTok[a.str]
+				nb, okB := ex.jsonTok[b.str]
+				if okA && okB && na.kind == "obj" && nb.kind == "obj" {
+					return TupleV{SliceV{str: ex.newToken(ex.mergePatchNode(na, nb, 0))}, IfaceV{}}
+				}
+			}
+		}
 		return TupleV{SliceV{str: ex.fresh("mergepatch", SStr)}, IfaceV{}}
 	})
 	add(repoMod+"/pkg/util/luamanager.Encode", func(ex *Exec, fr *frame, fn *ssa.Function, args []Value, pos tokenPos) Value {
@@ -411,4 +422,51 @@ func init() {
 		}
 		return TupleV{SliceV{str: ex.newToken(n)}, IfaceV{}}
 	})
+}
+
+// mergePatchNode: the RFC 7386 patch that turns object a into object b.
+func (ex *Exec) mergePatchNode(a, b *JNode, depth int) *JNode {
+	if depth > 40 {
+		ex.unsupported("merge patch depth")
+	}
+	out := &JNode{kind: "obj"}
+	matched := make([]bool, len(a.vals))
+	for i := range b.vals {
+		j := -1
+		for k := range a.vals {
+			if matched[k] {
+				continue
+			}
+			if ex.branch(mkEq(a.keyTerms[k], b.keyTerms[i])) {
+				j = k
+				break
+			}
+		}
+		if j < 0 {
+			out.keyTerms = append(out.keyTerms, b.keyTerms[i])
+			out.vals = append(out.vals, b.vals[i])
+			continue
+		}
+		matched[j] = true
+		av, bv := a.vals[j], b.vals[i]
+		if av.kind == "obj" && bv.kind == "obj" {
+			sub := ex.mergePatchNode(av, bv, depth+1)
+			if len(sub.vals) > 0 {
+				out.keyTerms = append(out.keyTerms, b.keyTerms[i])
+				out.vals = append(out.vals, sub)
+			}
+			continue
+		}
+		if !ex.branch(ex.jnodeEq(av, bv)) {
+			out.keyTerms = append(out.keyTerms, b.keyTerms[i])
+			out.vals = append(out.vals, bv)
+		}
+	}
+	for k := range a.vals {
+		if !matched[k] {
+			out.keyTerms = append(out.keyTerms, a.keyTerms[k])
+			out.vals = append(out.vals, &JNode{kind: "null"})
+		}
+	}
+	return out
 }
